@@ -9,6 +9,8 @@ fact extracted from MIR and compared with the published algorithm (Dunning & Ert
          never for the first and the last element of the sorted run (the extremes stay exact)
   C15.A  Centroid::add: weight' = w1 + w2, mean' = (m1 w1 + m2 w2) / (w1 + w2) on both of its arithmetic paths
   C15.O  the merged run is sorted by mean before the merge loop
+  C15.X  min/max are folded from the first/last centroid only after the list has its final order; the merged weight is added
+         to the total (centroid weights sum to total_weight, means stay inside [min, max])
   C15.K  capacity: centroids_capacity = 2k + (30 if k < 30 else 10); update() folds the buffer when it holds
          capacity * BUFFER_MULTIPLIER values, before pushing the next one
 Not decided: the centroid-count bound and the rank-error bound themselves.
@@ -206,47 +208,38 @@ def run(prog, ctx):
 
     # ---------------- C15.K capacity and fold trigger
     n_k = 0
-    mk = C.fn_one(prog, T, "make")
-    if mk is not None:
-        analysed.add(mk.id)
-        sm = Sym(prog, mk)
-        caps = [sm.rvalue(rv) for (ff, b, kind, place, rv, span, adt, fld) in sym.field_stores(prog, adt=T, field="centroids_capacity", fns=[mk]) if rv is not None]
-        if caps:
-            n_k += 1
-            bad = None
-            try:
-                for k in (10, 11, 29, 30, 31, 100, 500, 65535):
-                    got = formula.evaluate(caps[0], {"@prog": prog, "k": k})
-                    want = 2 * k + (30 if k < 30 else 10)
-                    if got != want:
-                        bad = "k=%d: %r, expected %d" % (k, got, want)
-                law("C15.K", "capacity", bad is None, "centroids_capacity is not 2k + (30 if k < 30 else 10): %s" % bad, mk.id)
-            except formula.Uneval as u:
-                law("C15.K", "capacity", None, "capacity not evaluable: %s" % u)
+    capf, capv = C.tdigest_capacity_field(prog)
+    n_k += 1
+    law("C15.K", "capacity", capv, "the centroid capacity (%s) is not initialised to 2k + (30 if k < 30 else 10)" % capf)
     up = C.pub_fn(prog, T, "update")
-    if up is not None:
+    if up is not None and capf and capv:
         analysed.add(up.id)
         su = Sym(prog, up)
         push = [b for b, site in up.calls() if (site.get("callee") or "").rsplit("::", 1)[-1] == "push"]
-        comp = [b for b, site in up.calls() if (site.get("callee") or "").rsplit("::", 1)[-1] == "compress"]
+        comp = [b for b, site in up.calls() if (site.get("callee") or "").startswith("tdigest::") and (site.get("callee") or "").rsplit("::", 1)[-1] != "push"]
         if push:
             n_k += 1
-            ok = False
+            verdict = None
             for cb in comp:
-                for x in su.cmp_facts_at(cb):
-                    if x[0] in ("Eq", "Ge") and len(x) == 3:
-                        a, c = (x[1], x[2]) if "buffer" in show(x[1]) else (x[2], x[1])
-                        if a[0] == "len" and "buffer" in show(a) and sym.contains(c, lambda t: t[0] == "field" and t[2] == "centroids_capacity"):
-                            try:
-                                mult = formula.evaluate(c, {"@prog": prog, "self.centroids_capacity": 1000}) / 1000.0
-                            except formula.Uneval:
-                                mult = None
-                            if mult is not None and 1 <= mult <= 8 and any(su._reaches(cb, pb) for pb in push):
-                                ok = True
-            # and the push cannot be reached with a full buffer bypassing the fold
-            law("C15.K", "fold", ok, "update() does not fold the buffer when it holds centroids_capacity * BUFFER_MULTIPLIER values before pushing", up.id)
+                fc = C.facts_pred(su, cb)
+                ok_all, any_eval = True, False
+                for cap in (30, 50, 210):
+                    for ln in (0, 1, cap, 4 * cap - 1, 4 * cap, 4 * cap + 1):
+                        holds, n_ev = fc({"@prog": prog, "self." + capf: cap, "len(self.buffer)": ln, "value": 1.5})
+                        if n_ev == 0:
+                            continue
+                        any_eval = True
+                        if holds != (ln == 4 * cap) and not (holds and ln > 4 * cap):
+                            ok_all = False
+                if any_eval and any(su._reaches(cb, pb) for pb in push):
+                    verdict = ok_all if verdict is None else (verdict and ok_all)
+            law("C15.K", "fold", verdict, "update() does not fold the buffer exactly when it holds capacity * BUFFER_MULTIPLIER (4) values before pushing", up.id)
     res.rule("C15.K", n_k, 2, "capacity formula and fold trigger")
 
+    # ---------------- C15.X means inside [min, max]: the extremes are folded from the first/last centroid after the list has its
+    # final order; centroid weights sum to the total (shared with C10.X)
+    from . import C10
+    C10.check_extremes(prog, res, "C15.X")
     res.functions_analysed = len(analysed)
     res.explanation = ("formulas and path facts of the t-digest compression (scale function, merge criterion, centroid addition, ordering, capacity) "
                        "extracted from MIR and compared with the published merging t-digest / k2 scale function on grids")
